@@ -63,12 +63,28 @@ def sub_composites(struct):
     return out
 
 
+def walk_levels(struct, level=0):
+    """(operation, nesting level) in the order of decomposed_operations(); level 0 = directly in the circuit"""
+    for node in struct._circuit_graph.get_node_iterator():
+        if isinstance(node.operation, ICircuitCompositeOperation):
+            yield from walk_levels(node.operation, level + 1)
+        else:
+            yield node.operation, level
+
+
 def observe(circuit, with_stim):
     """Everything a user can read about acquisition indices of `circuit`, plus the listing the registry scans."""
     uids = Uids()
     ops = circuit.operations                                   # = circuit_structure.decomposed_operations()
     listing = [item(op, uids) for op in ops]
+    # schedule of every listed operation: (channel identifiers, start, end) in ticks; used only for the overlap-freeness premise
+    sched = []
+    for op in ops:
+        st = ticks(op.start_time)
+        sched.append([[[int(ch.id), ch.channel.name] for ch in op.channel_identifiers], st, st + ticks(op.duration)])
     struct = circuit.circuit_structure
+    lv = list(walk_levels(struct))
+    assert len(lv) == len(ops) and all(a is b for (a, _), b in zip(lv, ops)), 'tree walk differs from decomposed_operations()'
     subs = None
     regs = [listing]            # regs[0]: listing of this circuit; further entries: listing of any other reference circuit
     reg_obj = [struct]
@@ -91,7 +107,7 @@ def observe(circuit, with_stim):
         ident = op.acquisition_identifier
         meas.append({'pos': pos, 'q': int(ident.qubit_index), 'tag': TAGS.index(ident.tag), 'uid': uids.of(op),
                      'qi': int(op.acquisition_index), 'ci': int(op.circuit_level_acquisition_index),
-                     'start': ticks(op.start_time), 'reg': ri, 'att': att})
+                     'start': ticks(op.start_time), 'reg': ri, 'att': att, 'lvl': lv[pos][1]})
     qubits = sorted({m['q'] for m in meas})
     by_qubit = [[q, [int(x) for x in np.asarray(circuit.get_acquisition_indices(q)).tolist()]] for q in qubits]
     # one qubit without any measurement and every (qubit, tag) combination, present or not
@@ -102,7 +118,7 @@ def observe(circuit, with_stim):
         for t, name in enumerate(TAGS):
             r = circuit.get_acquisition_indices(AcquisitionTag(qubit_index=q, tag=name))   # positional: multipledispatch ignores keywords
             by_tag.append([q, t, [int(x) for x in np.asarray(r).tolist()]])
-    out = {'listing': listing, 'regs': regs[1:], 'meas': meas, 'by_qubit': by_qubit, 'by_tag': by_tag,
+    out = {'listing': listing, 'sched': sched, 'regs': regs[1:], 'meas': meas, 'by_qubit': by_qubit, 'by_tag': by_tag,
            'uids_consistent': uids.consistent}
     if with_stim:
         sc = to_stim(circuit).flattened()
